@@ -251,14 +251,16 @@ def pop (n : Nat) (stack : List Obj) : List Obj × List Obj :=
 def doSetColor (st : MState) (stroke : Bool) : MState :=
   let n := if stroke then st.scs.2 else st.ncs.2
   let set (st : MState) (c : Color) : MState := if stroke then { st with scolor := some c } else { st with ncolor := some c }
-  if (n = 1 ∨ n = 3 ∨ n = 4) ∧ st.argstack.length < n then { st with argstack := [] }
-  else if n = 1 ∨ n = 3 ∨ n = 4 then
+  if n = 0 then st
+  else
+    -- `values = self.pop(n)`; the colour is set when there were n operands and all are numbers
     let (vals, rest) := pop n st.argstack
     let st := { st with argstack := rest }
-    match safeFloats vals with
-    | some c => set st c
-    | none => st
-  else st
+    if vals.length = n then
+      match safeFloats vals with
+      | some c => set st c
+      | none => st
+    else st
 
 /-- Body of a `do_*` method applied to exactly `arity` operands.
 `runForm` executes a form XObject (`interpreter.render_contents`) from the given initial state of
